@@ -39,7 +39,27 @@ struct AnyRunner
       h[a] = new (mem()) Any(const_cast<const Any &>(*h[b]));
     else if (is(o, "aa"))
       *h[a] = const_cast<const Any &>(*h[b]);
-    else if (is(o, "ai"))
+    else if (is(o, "cr") || is(o, "ar")) {
+      // the tag of the source BEFORE the model is advanced is what counts; apply() runs before the model update
+      int *ri = nullptr;
+      std::string *rs = nullptr;
+      Tracked *rt = nullptr;
+      switch (m.s[b].tag) {
+      case TAG_INT: ri = &h[b]->get<int>(); break;
+      case TAG_STR: rs = &h[b]->get<std::string>(); break;
+      case TAG_TRK: rt = &h[b]->get<Tracked>(); break;
+      }
+      if (is(o, "cr"))
+        h[a] = new (mem()) Any(const_cast<const Any &>(*h[b]));
+      else
+        *h[a] = const_cast<const Any &>(*h[b]);
+      if (ri)
+        *ri = IVAL[2];
+      if (rs)
+        *rs = SVAL[2];
+      if (rt)
+        *rt = Tracked((int)TVAL[2]);
+    } else if (is(o, "ai"))
       *h[a] = IVAL[b];
     else if (is(o, "as"))
       *h[a] = std::string(SVAL[b]);
